@@ -478,7 +478,7 @@ Record conf := Conf { c_acc : variants; c_default : relopt; c_suffix_required : 
 
 Inductive presult :=
 | PSyntaxError
-| PCrash                  (* IndexError on a soft-quoted empty string without relativity *)
+| PCrash                  (* an exception other than the syntax error while parsing (none in the current code) *)
 | PParsed (s : sdv).
 
 Definition RESERVED : list text :=
@@ -518,7 +518,7 @@ Definition just_string_argument (c : conf) (s : text) : sdv :=
 (** _without_explicit_relativity (+ reduction of a bare symbol name by MakePathFromMbSymbolReference) *)
 Definition without_explicit_relativity (c : conf) (t : strtok) : presult :=
   match st_frags t with
-  | [] => PCrash
+  | [] => PParsed (SRelOpt (c_default c) (suffix_of_frags []))   (* the empty string "": no fragments *)
   | [FSym n] => PParsed (SRef n (c_acc c) PSNothing (c_default c))
   | [FConst s] => PParsed (just_string_argument c s)
   | FSym n :: (FConst k :: _) as rest =>
